@@ -324,6 +324,10 @@ Lemma envelope_refuted :
     <> snd (st (init unit None) q).
 Proof. exists [QMain HGemini tt None false false], (QCheck tt). vm_compute. discriminate. Qed.
 
+(* the static inventory of process state in the working tree is what the model accounts for *)
+Lemma state_tie : state_inventory_ok = true.
+Proof. vm_compute. reflexivity. Qed.
+
 (* ---- soundness of the residue oracle, for any process whatever: if what a snapshot sees (`see`) determines
    both the answers and what the next snapshot sees (the snapshot misses no state that matters), and no call
    asked in the fresh state leaves a visible residue, then no history can change any answer *)
